@@ -1170,6 +1170,7 @@ func findEarlierPageBreak(context *layoutContext, children []Box, absoluteBoxes,
 		previousInFlow Box
 		index          int
 		i_, L          = 0, len(children)
+		keptFooters    []Box // table footers re-added after the break
 	)
 	for i_ = 0; i_ < L; i_++ { // reversed(list(enumerate(children)))
 		index = L - i_ - 1
@@ -1208,6 +1209,7 @@ func findEarlierPageBreak(context *layoutContext, children []Box, absoluteBoxes,
 						for _, nextChild := range children[index:] {
 							if nextChild.Box().IsFooter {
 								newChildren = append(newChildren, nextChild)
+								keptFooters = append(keptFooters, nextChild)
 							}
 						}
 					}
@@ -1224,7 +1226,22 @@ func findEarlierPageBreak(context *layoutContext, children []Box, absoluteBoxes,
 		return nil, nil
 	}
 
-	removePlaceholders(context, children[index:], absoluteBoxes, fixedBoxes)
+	// The footers re-added at the end of a split table are still in the tree:
+	// their placeholders (and footnotes) are kept.
+	var removed []Box
+	for _, child := range children[index:] {
+		isKept := false
+		for _, footer := range keptFooters {
+			if footer == child {
+				isKept = true
+				break
+			}
+		}
+		if !isKept {
+			removed = append(removed, child)
+		}
+	}
+	removePlaceholders(context, removed, absoluteBoxes, fixedBoxes)
 	return newChildren, resumeAt
 }
 
